@@ -2,6 +2,7 @@ package pac
 
 import (
 	"bytes"
+	"fmt"
 	"unicode/utf16"
 
 	"github.com/jcmturner/rpc/v2/mstypes"
@@ -46,8 +47,16 @@ func (k *UPNDNSInfo) Unmarshal(b []byte) (err error) {
 	if err != nil {
 		return
 	}
-	ub := mstypes.NewReader(bytes.NewReader(b[k.UPNOffset : k.UPNOffset+k.UPNLength]))
-	db := mstypes.NewReader(bytes.NewReader(b[k.DNSDomainNameOffset : k.DNSDomainNameOffset+k.DNSDomainNameLength]))
+	// The offsets and lengths come from the buffer itself: check them (as ints, the uint16 sum can wrap)
+	// against what is there before slicing.
+	if int(k.UPNOffset)+int(k.UPNLength) > len(b) {
+		return fmt.Errorf("UPN_DNS_INFO UPN (offset %d, length %d) lies outside the %d octets of the buffer", k.UPNOffset, k.UPNLength, len(b))
+	}
+	if int(k.DNSDomainNameOffset)+int(k.DNSDomainNameLength) > len(b) {
+		return fmt.Errorf("UPN_DNS_INFO DNS domain name (offset %d, length %d) lies outside the %d octets of the buffer", k.DNSDomainNameOffset, k.DNSDomainNameLength, len(b))
+	}
+	ub := mstypes.NewReader(bytes.NewReader(b[int(k.UPNOffset) : int(k.UPNOffset)+int(k.UPNLength)]))
+	db := mstypes.NewReader(bytes.NewReader(b[int(k.DNSDomainNameOffset) : int(k.DNSDomainNameOffset)+int(k.DNSDomainNameLength)]))
 
 	u := make([]uint16, k.UPNLength/2, k.UPNLength/2)
 	for i := 0; i < len(u); i++ {
